@@ -84,6 +84,10 @@ func (t *Type) AddAttr(attr Attr) error {
 		}
 	}
 
+	if _, ok := t.Rels[attr.Name]; ok {
+		return fmt.Errorf("jsonapi: attribute name %q is already used by a relationship", attr.Name)
+	}
+
 	if t.Attrs == nil {
 		t.Attrs = map[string]Attr{}
 	}
@@ -133,6 +137,10 @@ func (t *Type) checkRel(rel Rel) error {
 		if t.Rels[i].FromName == rel.FromName {
 			return fmt.Errorf("jsonapi: relationship name %q is already used", rel.FromName)
 		}
+	}
+
+	if _, ok := t.Attrs[rel.FromName]; ok {
+		return fmt.Errorf("jsonapi: relationship name %q is already used by an attribute", rel.FromName)
 	}
 
 	return nil
